@@ -289,7 +289,8 @@ theorem step_generic (ok : PlanOK plan) (k : K) (c : Code) (i : Nat) (r : Rank F
   have hcm : c ∈ (plan k).allCodes := ok.codes_sub k c (mem_rankCodes_of_getElem? _ i r c hr hc)
   rw [pureNext_eq_readNext plan k c f htop hcm]
   obtain ⟨h1, h2⟩ := writes_at k c (plan k).ranks [] i r hr hc (by simpa using ok.codes_nodup k) hprev hcodes
-  exact readNext_of_writes k c (plan k).ranks i (ws plan k) h1 h2
+  exact readNext_of_writes k c (plan k).ranks i (ws plan k)
+    (fun w hw => h1 w ((mem_ws plan k w).1 hw)) (fun r' hr' => (mem_ws plan k _).2 (h2 r' hr'))
 
 theorem pureNext_fresh (k : K) (c : Code) (h : (plan k).allCodes.contains c = false) :
     pureNext plan c k = pureTop plan k := by
